@@ -3,7 +3,8 @@
    SetRdsMachine.v, SetTtl.v, SetImm.v. *)
 From Coq Require Import Permutation.
 From DV Require Import Base.Prelude Model.SetM Proofs.SetAlg Proofs.SetRdata Proofs.SetMachine
-  Proofs.SetRds Proofs.SetRdsMachine Proofs.SetTtl Proofs.SetImm Proofs.SetObj.
+  Proofs.SetRds Proofs.SetRdsMachine Proofs.SetTtl Proofs.SetImm Proofs.SetObj Proofs.SetProc.
+From Coq Require Import Sorted.
 From DV Require Model.NameM Model.SchemaM Model.DnssecM Model.SetCanonM Proofs.DnssecRef Proofs.SetCanon Proofs.SetCanonRfc.
 Open Scope Z_scope.
 
@@ -519,6 +520,23 @@ Theorem rrset_full_match_spec : forall s n c t v d,
 Proof. exact r_full_match_spec. Qed.
 Print Assumptions rrset_full_match_spec.
 
+(* Rdataset.processing_order: whatever random.shuffle does (any function that rearranges its
+   argument), the result is a rearrangement of the members, and for the prioritised types
+   (MX, KX, RT, AFSDB, PX, NAPTR, SVCB, HTTPS) it is in non-decreasing priority order *)
+Theorem processing_order_is_rearrangement :
+  forall (A : Type) (shuffle : list A -> list A) (prio : A -> Z),
+    (forall l, Permutation l (shuffle l)) ->
+    forall by_priority items, Permutation items (processing_order A shuffle prio by_priority items).
+Proof. exact processing_order_perm. Qed.
+Print Assumptions processing_order_is_rearrangement.
+
+Theorem processing_order_by_priority :
+  forall (A : Type) (shuffle : list A -> list A) (prio : A -> Z),
+    (forall l, Permutation l (shuffle l)) ->
+    forall items, StronglySorted (le_prio A prio) (processing_order A shuffle prio true items).
+Proof. exact processing_order_sorted. Qed.
+Print Assumptions processing_order_by_priority.
+
 (* ---------------- immutability guard, constify ---------------- *)
 
 Theorem init_restores_context : forall a g, gctx (fst (gact g a)) = gctx g.
@@ -717,3 +735,8 @@ Proof.
     try (intros [H|[H|[H|[]]]]; discriminate); try (intros [H|[H|[]]]; discriminate);
     try (intros [H|[]]; discriminate); try (intros k [<-|[]] [H|[H|[H|[]]]]; discriminate).
 Qed.
+
+Example ex_processing_order :
+  (forall l : list (Z * Z), Permutation l (rev l)) /\
+  processing_order (Z * Z) (@rev _) fst true [(10, 1); (5, 2); (10, 3); (0, 4)] = [(0, 4); (5, 2); (10, 3); (10, 1)].
+Proof. split; [apply Permutation_rev|reflexivity]. Qed.
